@@ -265,12 +265,24 @@ def main():
     import multiprocessing as mp
     with mp.get_context("fork").Pool(min(16, len(tasks)), maxtasksperchild=1) as pool:
         results = pool.map(check_program, tasks, chunksize=1)
+    # rule level, any model size: symbolic ages on the canonical database of every reference stage (canon.ages_program)
+    import canon
+    allp = dict(progs)
+    allp.update(corpus.rule_level_only)
+    atasks = [{"program": name, "rs": p["rs"], "eql": p["eql"], "solver": os.environ.get("VERIF_SOLVER", "kissat"), "timeout": 120 if tier == "quick" else 900}
+              for name, p in sorted(allp.items())]
+    with mp.get_context("fork").Pool(min(16, len(atasks)), maxtasksperchild=2) as pool:
+        aresults = pool.map(canon.ages_program, atasks, chunksize=1)
+    progs = allp
     wall = time.time() - t0
     viol = [(r["program"], r["U"], v) for r in results for v in r["violations"]]
+    viol += [(r["program"], 0, {"family": "%s#%d (rule level, canonical database)" % (v["rule"], v["stage"]), "what": v.get("what"), "tables": v.get("ages"), "count": v.get("count")})
+             for r in aresults for v in r["violations"]]
+    results_all_inconc = [r for r in aresults if r["status"] != "ok"]
     # the repository's own (large) theories are an extra of the thorough tier: a solver timeout on one of them is recorded as
     # undecided (nothing is claimed for that theory), it does not make the check inconclusive
     undecided = [r for r in results if r["status"] != "ok" and progs.get(r["program"], {}).get("kind") == "repo" and "timeout" in r.get("reason", "")]
-    inconc = [r for r in results if r["status"] != "ok" and r not in undecided]
+    inconc = [r for r in results if r["status"] != "ok" and r not in undecided] + [dict(r, U=0) for r in results_all_inconc]
     replay = None
     if viol:
         os.makedirs(os.path.join(P.VERIF, "evidence", "replays"), exist_ok=True)
@@ -283,12 +295,16 @@ def main():
     cov = {
         "empty_premise_families": empties,
         "programs": len(progs),
-        "disagreements_checked": sum(r["obligations"] for r in results),
+        "disagreements_checked": sum(r["obligations"] for r in results) + sum(r["obligations"] for r in aresults),
         "samples": [s for r in results for s in r["samples"]][:6] or ["(none)"],
         "families": sum(r["families"] for r in results),
+        "rule_level_ages_on_canonical_databases": {"programs": len(aresults), "stages": sum(r["stages"] for r in aresults), "obligations": sum(r["obligations"] for r in aresults),
+                                                   "solver_queries": sum(r["queries"] for r in aresults), "largest_premise_atoms": max([r["max_atoms"] for r in aresults] + [0]),
+                                                   "skipped": [s_ for r in aresults for s_ in r["skipped"]][:20],
+                                                   "claim": "on the canonical database of a stage's premise with a symbolic age per tuple (an element of an old tuple is old) the rule module enumerates the match exactly once iff some premise tuple is new; independent of the model size for matches with pairwise distinct values"},
         "families_with_all_equality_patterns_covered (match variables <= universe)": sum(1 for r in results for f, nv in r.get("family_vars", {}).items() if nv <= r["U"]),
         "families_by_program_and_universe": len([1 for r in results for f in r.get("family_vars", {})]),
-        "solver_queries": sum(r["queries"] for r in results),
+        "solver_queries": sum(r["queries"] for r in results) + sum(r["queries"] for r in aresults),
         "bounds": {"universe": sorted(set(t["U"] for t in tasks)), "tables": "arbitrary disjoint new/old contents of every relation"},
         "functions_encoded": "every sub-rule function of every rule module of the generated code (real text, parsed on this run)",
         "program_names": sorted(progs),
